@@ -8,20 +8,23 @@
 (***************************************************************************)
 EXTENDS Mashumaro
 
-CONSTANTS LazyC, LazyInner
+CONSTANTS LazyC, LazyInner, Mixin, KwFlags
 
 Dt(y) == <<"date", y, 2, 28>>
 PT == <<"dc", "P", << <<"d", <<"date">>, <<"req">>, <<>> >> >>, << <<"mixin", "plain">> >> >>
 InnerT == <<"dc", "Inner", << <<"d", <<"date">>, <<"req">>, <<>> >>, <<"o", <<"opt", <<"int">> >>, <<"val", None>>, <<>> >> >>,
             << <<"flags", {"dialect_flag"}>> >> \o (IF LazyInner THEN << <<"lazy", TRUE>> >> ELSE <<>>) >>
 CFields == << <<"a", <<"date">>, <<"req">>, <<>> >>,
+              <<"raw", <<"bytes">>, <<"req">>, <<>> >>,
               <<"inner", InnerT, <<"req">>, <<>> >>,
               <<"items", <<"list", InnerT>>, <<"req">>, <<>> >>,
               <<"p", PT, <<"req">>, <<>> >>,
               <<"o", <<"opt", <<"str">> >>, <<"val", None>>, << <<"alias", "oo">> >> >> >>
-CT == <<"dc", "C", CFields, << <<"flags", {"dialect_flag"}>> >> \o (IF LazyC THEN << <<"lazy", TRUE>> >> ELSE <<>>) >>
+CFlags == IF KwFlags THEN {"dialect_flag", "omit_none_flag", "by_alias_flag"} ELSE {"dialect_flag"}
+MixinOpt == IF Mixin = "dict" THEN <<>> ELSE << <<"mixin", Mixin>> >>
+CT == <<"dc", "C", CFields, << <<"flags", CFlags>> >> \o MixinOpt \o (IF LazyC THEN << <<"lazy", TRUE>> >> ELSE <<>>) >>
 ST == <<"dc", "S", CFields \o << <<"z", <<"date">>, <<"val", Dt(2020)>>, <<>> >> >>,
-        << <<"bases", <<CT>> >>, <<"flags", {"dialect_flag"}>> >> \o (IF LazyC THEN << <<"lazy", TRUE>> >> ELSE <<>>) >>
+        << <<"bases", <<CT>> >>, <<"flags", CFlags>> >> \o MixinOpt \o (IF LazyC THEN << <<"lazy", TRUE>> >> ELSE <<>>) >>
 
 MCClassOf(n) == CASE n = "C" -> CT [] n = "S" -> ST [] n = "Inner" -> InnerT
 MCParentOf(n) == IF n = "S" THEN "C" ELSE "#none"
@@ -31,14 +34,17 @@ MCDialectOf(d) ==
     [] d = "D1" -> << <<"name", "D1">>, <<"strategy", << << <<"date">>, <<"mark", "d1", "both">> >> >> >> >>
     [] d = "D2" -> << <<"name", "D2">>, <<"omit_none", TRUE>>, <<"serialize_by_alias", TRUE>> >>
     [] d = "D3" -> << <<"name", "D3">>, <<"strategy", << << <<"date">>, <<"mark", "d3", "both">> >> >> >>, <<"omit_none", TRUE>> >>
-MCDNames == {"none", "D1", "D2", "D3"}
+MCDNames == IF KwFlags THEN {"none", "D1"} ELSE {"none", "D1", "D2", "D3"}
+MCFmtsOf(n) == IF Mixin = "dict" THEN {"dict"} ELSE {"dict", Mixin}
+MCKwNames == IF KwFlags THEN (IF Mixin = "orjson" THEN {"none", "omit_none", "by_alias", "newline"} ELSE {"none", "omit_none", "by_alias"}) ELSE {"none"}
+Raw == <<"bytes", <<1, 2, 255>> >>
 InnerV(y, o) == <<"obj", "Inner", <<Dt(y), o>> >>
 MCValueOf(n) ==
-  IF n = "C" THEN <<"obj", "C", <<Dt(2024), InnerV(2021, None), L(<<InnerV(2022, I(5))>>), <<"obj", "P", <<Dt(2023)>> >>, None>> >>
-  ELSE <<"obj", "S", <<Dt(2024), InnerV(2021, None), L(<<InnerV(2022, I(5))>>), <<"obj", "P", <<Dt(2023)>> >>, S("s"), Dt(2019)>> >>
+  IF n = "C" THEN <<"obj", "C", <<Dt(2024), Raw, InnerV(2021, None), L(<<InnerV(2022, I(5))>>), <<"obj", "P", <<Dt(2023)>> >>, None>> >>
+  ELSE <<"obj", "S", <<Dt(2024), Raw, InnerV(2021, None), L(<<InnerV(2022, I(5))>>), <<"obj", "P", <<Dt(2023)>> >>, S("s"), Dt(2019)>> >>
 Ds(y) == S(IsoDate(y, 2, 28))
 InnerJ(y) == Dct(<< <<S("d"), Ds(y)>> >>)
 MCInputOf(n) ==
-  Dct(<< <<S("a"), Ds(2024)>>, <<S("inner"), InnerJ(2021)>>, <<S("items"), L(<<InnerJ(2022)>>)>>, <<S("p"), InnerJ(2023)>> >>
+  Dct(<< <<S("a"), Ds(2024)>>, <<S("raw"), S(EncodeBytes(<<1, 2, 255>>))>>, <<S("inner"), InnerJ(2021)>>, <<S("items"), L(<<InnerJ(2022)>>)>>, <<S("p"), InnerJ(2023)>> >>
       \o (IF n = "S" THEN << <<S("z"), Ds(2019)>>, <<S("oo"), S("t")>> >> ELSE <<>>))
 =============================================================================
